@@ -20,8 +20,17 @@ Encoding (generic, no per-function configuration beyond the function's name):
 * literals are read from the SOURCE TEXT at the AST's offsets (`1e-11` -> `OfScientific.ofScientific 1 true 11`,
   `1.0` -> `((1 : Nat) : α)`, macro `M_PI` -> `Trans.pi`); namespace-scope constants become generated definitions;
 * `if`/else-if/`?:` -> `if then else` (assigned variables merged through a tuple), early `return` -> if/else expression,
-  `while` -> auxiliary structurally recursive function on fuel returning `Option` of the loop-carried variables;
-* libm calls -> `Romea.Trans.*`; calls to library functions with a body in the TU are translated too and called;
+  `while` / `for` (with `break` / `continue`) -> auxiliary structurally recursive function on fuel returning `Option` of the
+  loop-carried variables;
+* libm calls -> `Romea.Trans.*` (`pow(x, 2)` -> `x * x`, `M_PI_2`/`M_PI_4` -> `Trans.pi / 2`, `/ 4`); `std::min/max`;
+  `std::numeric_limits<T>::epsilon()/max()/lowest()/min()` -> `Limits.*`; calls to library functions (methods, constructors incl.
+  base-class and delegating initialisers, template instantiations) with a body in the TU are translated too and called;
+* `enum` values -> their underlying integers; `std::string` -> `String` (`+` -> `++`); `x.front()`, `x.back()`, `x.begin()->…` of a
+  standard container -> a fixed location (path component); `std::lock_guard` declarations are skipped; functions listed in the
+  spec's `uninterpreted` become function-typed parameters, those in `externs` are mapped to a named Lean function;
+* Eigen: `v[i]`, `v(i)`, `m(i,j)`, `.x()…`, fixed-size constructors, `Identity()/Zero()/Ones()`, `.norm()/.squaredNorm()` (left-to-right
+  sum) and the fixed-size product `A * B` (`(a0*b0 + a1*b1) + a2*b2` per coefficient); nothing else of Eigen;
+* a spec entry may restrict a function to some written members (`outputs`): dead code is then removed;
 * anything else (function-local `static`, writes to globals, unknown calls, unsupported statements) makes the function
   UNTRANSLATABLE: the generated file then holds a comment with the reason and no definition of that name, so that the
   bridge theorem about it no longer compiles.
@@ -250,6 +259,19 @@ class TU:
             self.files[f] = open(f, 'rb').read()
         return self.files[f][loc['offset']:loc['offset'] + loc['tokLen']].decode()
 
+    def range_text(self, n):
+        """source text of an expression that is not inside a macro expansion ('' otherwise)"""
+        r = n.get('range') or {}
+        b, e = r.get('begin') or {}, r.get('end') or {}
+        if 'offset' not in b or 'offset' not in e or b.get('file') != e.get('file') or not b.get('file'):
+            return ''
+        f = b['file']
+        if not os.path.isabs(f):
+            f = os.path.join(os.path.dirname(self.tu_path), f)
+        if f not in self.files:
+            self.files[f] = open(f, 'rb').read()
+        return self.files[f][b['offset']:e['offset'] + e.get('tokLen', 0)].decode(errors='replace')
+
     def macro_name(self, loc):
         """name of the macro a literal was expanded from (None if it is not from a macro)"""
         if 'expansionLoc' not in loc:
@@ -417,7 +439,7 @@ class Sc:
 
 TY_LEAN = {'a': 'α', 'd': 'δ', 'i': 'Int', 'b': 'Bool', 's': 'String'}
 CLASS_ORDER = ['Add', 'Sub', 'Mul', 'Div', 'Neg', 'LT', 'LE', 'DecidableLT', 'DecidableLE', 'DecidableEq', 'NatCast', 'IntCast',
-               'OfScientific', 'Trans', 'Trunc']
+               'OfScientific', 'Trans', 'Trunc', 'Limits']
 
 
 def key_name(k):
@@ -1265,6 +1287,13 @@ class Translator:
         decl = self.function_def(rd.get('id')) if nm not in self.spec.get('uninterpreted', {}) else None
         if decl is not None:
             return self.call_fn(decl, None, args, env, pre)
+        if nm in ('epsilon', 'max', 'lowest', 'min') and not args:
+            m = re.match(r'^\s*(std::)?numeric_limits<\s*(double|float)\s*>::(epsilon|max|lowest|min)\s*\(\s*\)\s*$', self.tu.range_text(n))
+            if m:      # the scalar type's Limits instance (RomeaModel/Scalar.lean)
+                ty = self.tyvar(frame, type_of(n))
+                frame.need('Limits', ty)
+                fld = {'epsilon': 'eps', 'max': 'maxVal', 'lowest': 'lowest', 'min': 'minPos'}[m.group(3)]
+                return Sc('(Limits.%s : %s)' % (fld, TY_LEAN[ty]), ty)
         if nm in self.spec.get('uninterpreted', {}):
             vs = [self.eval(a, env, pre) for a in args]
             rty = self.tyvar(frame, type_of(n))
